@@ -6,7 +6,7 @@ import hmac as _hmac
 from harness import gallina as G
 
 ID = "C48"
-COQ_DIRS = ["C48"]
+COQ_DIRS = ["C48", "Gen"]
 PROPERTY_FILE = "C48/Property.v"
 RUN_IMPORTS = "From TV Require Import C48.Model C48.Spec C48.Run."
 RUN_FN = "run_case"
@@ -14,14 +14,33 @@ CHECK_FN = "check_case"
 INPUT_TYPE = "input"
 TRUSTED_BASE = [
     "HMAC-SHA1 and base64 are not modelled: the harness captures the (key, message) handed to hmac.new inside tornado.auth and additionally "
-    "recomputes base64(HMAC-SHA1(key, message)) itself to confirm the returned signature is exactly that",
-    "urllib.parse.urlparse splits the URL built by the harness from clean components (scheme, userinfo, host, port, path); the model receives those components",
-    "str()/utf-8 conversion of parameter names and values is done by the harness before rendering them as bytes",
+    "recomputes base64(HMAC-SHA1(key, message)) itself to confirm the returned signature (and the oauth_signature entry of the dict returned by "
+    "_oauth_request_parameters) is exactly that",
+    "urllib.parse.urlsplit splits the URL built by the harness from clean components (scheme, userinfo, host, port, path); the model receives those components",
+    "str()/utf-8 conversion of parameter names and values (and escape.to_basestring of the consumer/token keys) is done by the harness before rendering them as bytes",
+    "time.time and uuid.uuid4 are replaced inside tornado.auth by the harness for _oauth_request_parameters; the model receives int(time) and the 16 UUID bytes",
+    "translators/c48_src.py (ast -> Gen/C48_src.v) and ast.unparse for the text-pinned functions",
 ]
-ASSUMPTIONS = ["host contains no '@'; port contains no '@' or ':'; a host containing ':' (IPv6 literal) carries an explicit port in the generated URLs or is bracketed without one of the default-port suffixes"]
+ASSUMPTIONS = ["host contains no '@'; port contains no '@' or ':'; a host containing ':' (IPv6 literal) carries an explicit port in the generated URLs or is bracketed without one of the default-port suffixes",
+               "request parameters are a dict (distinct names); the nonce consists of bytes"]
 RULE = ("URLs from components (scheme case variants, userinfo, host case variants incl. IPv6 literals, default/non-default/absent ports, paths with reserved characters) x "
-        "parameter dicts with names/values needing escaping, sort-order traps (raw order != encoded order), non-ASCII x secrets with reserved characters x both signature versions; "
+        "parameter dicts with names/values needing escaping, sort-order traps (raw order != encoded order), non-ASCII x secrets with reserved characters (incl. '/') x both signature versions "
+        "x token present/absent/empty; OAuthMixin._oauth_request_parameters with request parameters that do and do not collide with oauth_* names, boundary timestamps, "
+        "fixed nonces, str/bytes consumer keys, explicit/default _OAUTH_VERSION; _oauth_escape on every byte value (bytes and str input); "
         "distinct by input; non-trivial = some component needs escaping or normalisation")
+
+
+def pre_build():
+    """regenerate Gen/C48_src.v (syntax trees of _oauth_escape and the two key constructions, source text of the
+    rest) from the working tree; fails closed"""
+    import importlib
+    import os
+    import sys
+    from harness.framework import REPO, COQ
+    sys.path.insert(0, os.path.join(os.path.dirname(COQ), "translators"))
+    import c48_src
+    importlib.reload(c48_src)
+    c48_src.emit(REPO, os.path.join(COQ, "Gen", "C48_src.v"))
 
 
 def build_url(c):
@@ -33,31 +52,100 @@ def build_url(c):
     return c["scheme"] + "://" + netloc + c["path"]
 
 
+class _Capture:
+    """replaces tornado.auth.hmac / time / uuid for one call"""
+
+    def __init__(self, time_value=None, nonce=None):
+        self.captured = []
+        self.time_value = time_value
+        self.nonce = nonce
+
+    def __enter__(self):
+        from tornado import auth
+        cap = self
+        real_new = auth.hmac.new
+
+        class FakeHmacModule:
+            def __getattr__(self, n):
+                return getattr(_hmac, n)
+
+            @staticmethod
+            def new(key, msg=None, digestmod=None):
+                cap.captured.append((bytes(key), bytes(msg)))
+                return real_new(key, msg, digestmod)
+
+        class FakeTime:
+            @staticmethod
+            def time():
+                return cap.time_value
+
+        class FakeUuid:
+            @staticmethod
+            def uuid4():
+                class U:
+                    bytes = cap.nonce
+                return U()
+        self.old = (auth.hmac, auth.time, auth.uuid)
+        auth.hmac = FakeHmacModule()
+        if self.time_value is not None:
+            auth.time, auth.uuid = FakeTime(), FakeUuid()
+        return self
+
+    def __exit__(self, *a):
+        from tornado import auth
+        auth.hmac, auth.time, auth.uuid = self.old
+
+
+def expected_sig(key, msg):
+    return base64.b64encode(_hmac.new(key, msg, hashlib.sha1).digest())
+
+
 def run_impl(case):
     from tornado import auth
-    captured = []
-    real_new = auth.hmac.new
-
-    class FakeHmacModule:
-        def __getattr__(self, n):
-            return getattr(_hmac, n)
-
-        @staticmethod
-        def new(key, msg=None, digestmod=None):
-            captured.append((bytes(key), bytes(msg)))
-            return real_new(key, msg, digestmod)
-    old = auth.hmac
-    auth.hmac = FakeHmacModule()
-    try:
+    kind = case.get("kind", "sign")
+    if kind == "esc":
+        val = bytes(case["bytes"]) if case["as"] == "bytes" else bytes(case["bytes"]).decode("utf-8")
+        r = auth._oauth_escape(val)
+        if not isinstance(r, str):
+            return [G.Tag("NotStr")]
+        return r.encode("utf-8")
+    if kind == "req":
+        class H(auth.OAuthMixin):
+            def _oauth_consumer_token(self):
+                ck = case["ck"].encode("utf-8") if case["ck_bytes"] else case["ck"]
+                return dict(key=ck, secret=case["cs"])
+        if case["v"] == "1.0":
+            H._OAUTH_VERSION = "1.0"
+        elif case["v_explicit"]:
+            H._OAUTH_VERSION = "1.0a"
+        user = dict(case["params"])
+        before = dict(user)
+        with _Capture(case["time"] + case["frac"], bytes(case["nonce"])) as cap:
+            access = dict(key=case["tk"], secret=case["ts"])
+            ret = H()._oauth_request_parameters(build_url(case), access, user, method=case["method"])
+        if user != before:
+            return [G.Tag("ParametersMutated")]
+        if len(cap.captured) != 1:
+            return [G.Tag("HmacCalls"), len(cap.captured)]
+        key, msg = cap.captured[0]
+        items = []
+        for k, v in ret.items():
+            if not isinstance(k, str) or not isinstance(v, str):
+                return [G.Tag("NotStr"), repr((k, v))]
+            if k == "oauth_signature":
+                items.append([b(k), G.Tag("HmacSha1Base64") if v.encode("ascii") == expected_sig(key, msg) else G.Tag("BadSignature")])
+            else:
+                items.append([b(k), b(v)])
+        return [key, msg, items]
+    with _Capture() as cap:
         fn = auth._oauth10a_signature if case["v"] == "1.0a" else auth._oauth_signature
         token = None if case["ts"] is None else dict(key="tk", secret=case["ts"])
         sig = fn(dict(key="ck", secret=case["cs"]), case["method"], build_url(case), dict(case["params"]), token)
-    finally:
-        auth.hmac = old
+    captured = cap.captured
     if len(captured) != 1:
         return [G.Tag("HmacCalls"), len(captured)]
     key, msg = captured[0]
-    if sig != base64.b64encode(_hmac.new(key, msg, hashlib.sha1).digest()):
+    if sig != expected_sig(key, msg):
         return [G.Tag("SignatureNotHmacSha1Base64")]
     return [key, msg]
 
@@ -66,32 +154,74 @@ def b(s):
     return s.encode("utf-8")
 
 
-def coq_input(c):
-    ps = G.glist(["(%s, %s)" % (G.gbytes(b(str(k))), G.gbytes(b(str(v)))) for k, v in c["params"]], "(list N * list N)")
-    return "(%s, %s, %s, %s, %s, %s, %s, %s, %s)" % (
+def gparams(c):
+    return G.glist(["(%s, %s)" % (G.gbytes(b(str(k))), G.gbytes(b(str(v)))) for k, v in c["params"]], "(list N * list N)")
+
+
+def gurl(c):
+    return "%s, %s, %s, %s, %s, %s" % (
         G.gbytes(b(c["method"])), G.gbytes(b(c["scheme"])), G.goption(c["ui"], lambda x: G.gbytes(b(x)), "(list N)"),
-        G.gbytes(b(c["host"])), G.goption(c["port"], lambda x: G.gbytes(b(x)), "(list N)"), G.gbytes(b(c["path"])),
-        ps, G.gbytes(b(c["cs"])), G.gbytes(b(c["ts"] or "")))
+        G.gbytes(b(c["host"])), G.goption(c["port"], lambda x: G.gbytes(b(x)), "(list N)"), G.gbytes(b(c["path"])))
 
 
-def py_check(c, o):
-    """independent RFC 5849 3.4.1 computation in Python"""
-    if not (isinstance(o, list) and len(o) == 2 and isinstance(o[0], bytes)):
-        return False
-    from urllib.parse import quote
+def coq_input(c):
+    kind = c.get("kind", "sign")
+    v = G.gbool(c["v"] == "1.0a") if kind != "esc" else None
+    if kind == "esc":
+        return "(IEsc %s)" % G.gbytes(bytes(c["bytes"]))
+    if kind == "req":
+        return "(IReq %s (%s) %s (%s, %s, %s, %s) %s %s)" % (
+            v, gurl(c), gparams(c), G.gbytes(b(c["ck"])), G.gbytes(b(c["cs"])), G.gbytes(b(c["tk"])), G.gbytes(b(c["ts"])),
+            G.gn(c["time"]), G.gbytes(bytes(c["nonce"])))
+    return "(ISign %s (%s, %s, %s, %s))" % (
+        v, gurl(c), gparams(c), G.gbytes(b(c["cs"])), G.goption(c["ts"], lambda x: G.gbytes(b(x)), "(list N)"))
 
-    def e(x):
-        return quote(x if isinstance(x, bytes) else str(x).encode("utf-8"), safe="~")
+
+UNRESERVED = "ABCDEFGHIJKLMNOPQRSTUVWXYZabcdefghijklmnopqrstuvwxyz0123456789-._~"
+
+
+def rfc_encode(x):
+    """RFC 5849 3.6, written out (no urllib)"""
+    data = x if isinstance(x, bytes) else str(x).encode("utf-8")
+    return "".join(chr(v) if chr(v) in UNRESERVED else "%" + "0123456789ABCDEF"[v >> 4] + "0123456789ABCDEF"[v & 15] for v in data)
+
+
+def rfc_base(c, params):
+    e = rfc_encode
     host = c["host"].lower()
     port = c["port"]
     if port is not None and (c["scheme"].lower(), port) not in (("http", "80"), ("https", "443")):
         host += ":" + port.lower()
     uri = c["scheme"].lower() + "://" + host + c["path"]
-    pairs = sorted((e(k).encode(), e(v).encode()) for k, v in c["params"])
-    params = b"&".join(k + b"=" + v for k, v in pairs).decode()
-    base = "&".join([e(c["method"].upper()), e(uri), e(params)]).encode()
-    key = (e(c["cs"]) + "&" + e(c["ts"] or "")).encode()
-    return o[0] == key and o[1] == base
+    pairs = sorted((e(k).encode(), e(v).encode()) for k, v in params)
+    ps = b"&".join(k + b"=" + v for k, v in pairs).decode()
+    return "&".join([e(c["method"].upper()), e(uri), e(ps)]).encode()
+
+
+def py_check(c, o):
+    """independent RFC 5849 3.4.1 computation in Python"""
+    kind = c.get("kind", "sign")
+    if kind == "esc":
+        return isinstance(o, bytes) and o == rfc_encode(bytes(c["bytes"])).encode()
+    if kind == "req":
+        if not (isinstance(o, list) and len(o) == 3 and isinstance(o[0], bytes) and isinstance(o[2], list)):
+            return False
+        names = [bytes(x[0]).decode() for x in o[2]]
+        if names != ["oauth_consumer_key", "oauth_token", "oauth_signature_method", "oauth_timestamp", "oauth_nonce", "oauth_version", "oauth_signature"]:
+            return False
+        if str(o[2][6][1]) != "HmacSha1Base64":
+            return False
+        vals = [bytes(x[1]).decode() for x in o[2][:6]]
+        if vals != [c["ck"], c["tk"], "HMAC-SHA1", "%d" % c["time"], bytes(c["nonce"]).hex(), "1.0"]:
+            return False
+        signed = dict(zip(names[:6], vals))
+        signed.update((str(k), v) for k, v in c["params"])
+        key = (rfc_encode(c["cs"]) + "&" + rfc_encode(c["ts"])).encode()
+        return o[0] == key and o[1] == rfc_base(c, signed.items())
+    if not (isinstance(o, list) and len(o) == 2 and isinstance(o[0], bytes)):
+        return False
+    key = (rfc_encode(c["cs"]) + "&" + rfc_encode(c["ts"] or "")).encode()
+    return o[0] == key and o[1] == rfc_base(c, c["params"])
 
 
 NAMES = ["a", "b", "a b", "a|", "az", "a~", "a-", "A", "oauth_nonce", "oauth_token", "c@", "caf\xe9", "a%20b", "=", "&", "a+b", "z", "a1", "a!"]
@@ -110,42 +240,114 @@ def mk(rng=None, **kw):
     return c
 
 
+def mkreq(**kw):
+    c = mk(kind="req", ck="ck", ck_bytes=False, tk="tk", v_explicit=True, time=1700000000, frac=0.5,
+           nonce=list(range(16)), params=[["status", "a b"]])
+    c.update(kw)
+    return c
+
+
+def mkesc(data, as_="bytes"):
+    return {"kind": "esc", "bytes": list(data), "as": as_}
+
+
 def corpus_cases():
     return [mk(params=[["a b", "1"]]), mk(port="80"), mk(scheme="HTTPS", port="443", host="EXAMPLE.COM"), mk(v="1.0", cs="a&b", ts="c d"),
-            mk(params=[["a|", "1"], ["az", "2"]]), mk(ui="User:Pw", port="80"), mk(ts=None), mk(method="post", params=[["b5", "=%3D"], ["a3", "a"], ["c@", ""], ["a2", "r b"]])]
+            mk(params=[["a|", "1"], ["az", "2"]]), mk(ui="User:Pw", port="80"), mk(ts=None), mk(method="post", params=[["b5", "=%3D"], ["a3", "a"], ["c@", ""], ["a2", "r b"]]),
+            mk(cs="ab/cd", ts="e/f"), mk(v="1.0", cs="ab/cd", ts="e/f"), mk(v="1.0", ts=None), mk(ts=""),
+            mkreq(), mkreq(v="1.0"), mkreq(v_explicit=False, cs="a/b", ts="c/d~"), mkreq(params=[["oauth_nonce", "x"], ["q", "1"]]),
+            mkreq(params=[["oauth_signature", "forged"], ["oauth_token", "other"]]), mkreq(params=[], time=0, frac=0.999, nonce=[255] * 16),
+            mkreq(method="post", port="80", ui="u:p", host="EXAMPLE.com", ck="caf\xe9", ck_bytes=True),
+            mkesc(range(0, 64)), mkesc(range(64, 128)), mkesc(range(128, 192)), mkesc(range(192, 256)),
+            mkesc("caf\xe9 \u20ac/~".encode("utf-8"), "str"), mkesc(b"", "str"), mkesc(b"")]
+
+
+TIMES = [0, 1, 9, 10, 99, 100, 999999999, 1000000000, 1700000000, 2 ** 31 - 1, 2 ** 31, 2 ** 32, 10 ** 12]
+REQ_NAMES = NAMES + ["oauth_signature", "oauth_timestamp", "oauth_version", "oauth_consumer_key", "oauth_signature_method", "status", "page"]
+KEYS = ["ck", "tk", "key with space", "caf\xe9", "a&b=c", "", "9djdj82h48djs9d2"]
+
+
+def gen_url(rng):
+    host = rng.choice(HOSTS)
+    port = rng.choice(PORTS)
+    if ":" in host and port is None:
+        port = rng.choice(["8080", "80", "9"])
+    return dict(method=rng.choice(["GET", "get", "Post", "DELETE", "pAtCh"]), scheme=rng.choice(["http", "https", "HTTP", "Https"]),
+                ui=rng.choice(UIS), host=host, port=port, path=rng.choice(PATHS))
 
 
 def gen_cases(rng, tier):
     out = []
-    n = 600 if tier == "quick" else 6000
-    for _ in range(n):
-        host = rng.choice(HOSTS)
-        port = rng.choice(PORTS)
-        if ":" in host and port is None:
-            port = rng.choice(["8080", "80", "9"])
+    n_sign, n_req, n_esc = (400, 160, 24) if tier == "quick" else (4500, 1500, 300)
+    for _ in range(n_sign):
         names = rng.sample(NAMES, rng.randrange(0, 6))
         params = [[k, rng.choice(VALUES + [7, 0])] for k in names]
-        out.append(mk(v=rng.choice(["1.0", "1.0a"]), method=rng.choice(["GET", "get", "Post", "DELETE", "pAtCh"]),
-                      scheme=rng.choice(["http", "https", "HTTP", "Https"]), ui=rng.choice(UIS), host=host, port=port,
-                      path=rng.choice(PATHS), params=params, cs=rng.choice(SECRETS), ts=rng.choice(SECRETS + [None])))
+        out.append(mk(v=rng.choice(["1.0", "1.0a"]), params=params, cs=rng.choice(SECRETS), ts=rng.choice(SECRETS + [None]), **gen_url(rng)))
+    for _ in range(n_req):
+        names = rng.sample(REQ_NAMES, rng.randrange(0, 5))
+        params = [[k, rng.choice(VALUES + [7, 0])] for k in names]
+        nonce = rng.choice([[rng.randrange(256) for _ in range(16)]] * 4 + [[0] * 16, [255] * 16, [0x0a, 0xa0, 0x9f, 0xf9] * 4])
+        out.append(mkreq(v=rng.choice(["1.0", "1.0a"]), v_explicit=rng.random() < 0.5, params=params, ck=rng.choice(KEYS), ck_bytes=rng.random() < 0.3,
+                         tk=rng.choice(KEYS), cs=rng.choice(SECRETS), ts=rng.choice(SECRETS),
+                         time=rng.choice(TIMES + [rng.randrange(0, 2 ** 33)] * 4), frac=rng.choice([0.0, 0.25, 0.999]), nonce=nonce, **gen_url(rng)))
+    if tier != "quick":
+        # every ASCII character as a one-character secret, in both versions
+        for v in range(128):
+            for ver in ("1.0", "1.0a"):
+                out.append(mk(v=ver, cs=chr(v), ts=chr(127 - v), params=[]))
+        # every ordered pair of the name pool as a two-parameter set (all sort-order traps)
+        for k1 in NAMES:
+            for k2 in NAMES:
+                if k1 != k2:
+                    out.append(mk(params=[[k1, "1"], [k2, ""]]))
+        # every byte value on its own, and next to each neighbour kind
+        for v in range(256):
+            out.append(mkesc([v]))
+            out.append(mkesc([37, v, 65]))
+    for _ in range(n_esc):
+        if rng.random() < 0.5:
+            out.append(mkesc([rng.randrange(256) for _ in range(rng.randrange(0, 24))]))
+        else:
+            text = "".join(rng.choice(["a", "Z", "9", "~", "/", " ", "%", "&", "=", "+", "\xe9", "\u20ac", "\U0001F600", "-", "_", "."]) for _ in range(rng.randrange(0, 12)))
+            out.append(mkesc(text.encode("utf-8"), "str"))
     return out
 
 
 def nontrivial(c, o):
+    kind = c.get("kind", "sign")
+    if kind == "esc":
+        return ("esc", bytes(c["bytes"]).hex()) if any(chr(v) not in UNRESERVED for v in c["bytes"]) else None
     if c["port"] or c["ui"] or c["host"] != c["host"].lower() or any(not str(k).isalnum() or not str(v).isalnum() for k, v in c["params"]):
         return repr(sorted(c.items(), key=str))
     return None
 
 
+PROTOCOL = {"oauth_consumer_key", "oauth_token", "oauth_signature_method", "oauth_timestamp", "oauth_nonce", "oauth_version", "oauth_signature"}
+
+
 def classify(c, o):
+    kind = c.get("kind", "sign")
+    yield "kind=" + kind
+    if kind == "esc":
+        yield "esc_input=" + c["as"]
+        return
     yield "v=" + c["v"]
     yield "port=" + ("none" if c["port"] is None else "default" if (c["scheme"].lower(), c["port"]) in (("http", "80"), ("https", "443")) else "other")
     yield "userinfo=" + ("yes" if c["ui"] else "no")
     yield "params=%d" % len(c["params"])
     yield "token=" + ("none" if c["ts"] is None else "yes")
+    if kind == "req":
+        yield "request_names_collide=" + ("yes" if any(str(k) in PROTOCOL for k, _ in c["params"]) else "no")
+    if "/" in c["cs"] or "/" in (c["ts"] or ""):
+        yield "secret_with_slash"
 
 
 def shrink(c):
+    if c.get("kind") == "esc":
+        d = c["bytes"]
+        for i in range(len(d)):
+            yield dict(c, bytes=d[:i] + d[i + 1:])
+        return
     if c["params"]:
         for i in range(len(c["params"])):
             yield dict(c, params=c["params"][:i] + c["params"][i + 1:])
@@ -157,6 +359,11 @@ def shrink(c):
         yield dict(c, cs="cs")
     if c["ts"] not in (None, "ts"):
         yield dict(c, ts="ts")
+    if c.get("kind") == "req":
+        if c["time"] != 0:
+            yield dict(c, time=0)
+        if c["nonce"] != [0] * 16:
+            yield dict(c, nonce=[0] * 16)
 
 
 def signature(c, o):
@@ -164,9 +371,16 @@ def signature(c, o):
 
 
 LEVEL_TEXT = ("Machine-checked proof that Tornado's OAuth base string and signing key are the ones RFC 5849 3.4.1/3.4.2 define for every method, URL "
-              "(any userinfo, host, port), parameter set and pair of secrets: the parameter string is THE unique ascending arrangement of the "
-              "percent-encoded pairs (relational RFC spec, uniqueness proved), the base URI drops userinfo and default ports and lower-cases scheme/host, "
-              "hence equal signatures for any MAC; tied to auth.py by capturing the (key, message) actually passed to hmac.new on generated inputs.")
-LEVEL_NOTE = ("Trusted: Coq kernel/vm_compute, harness (hmac capture, URL construction), urlparse. HMAC-SHA1/base64 themselves are outside the model "
+              "(any userinfo, host, port), parameter set and pair of secrets, for both signature versions and with or without a token: the parameter string is THE "
+              "unique ascending arrangement of the percent-encoded pairs (relational RFC spec, uniqueness proved, order-independence proved), the base URI drops userinfo "
+              "and default ports and lower-cases scheme/host, _oauth_escape leaves exactly RFC 3986's unreserved set alone and is inverted by a strict decoder "
+              "(swept over all 256 bytes), the key determines both secrets (the old unencoded key did not), hence equal signatures for any MAC; "
+              "OAuthMixin._oauth_request_parameters signs the request's parameters plus the protocol parameters they do not name, returns exactly the seven protocol "
+              "parameters whatever the request's parameters are, and a server dropping oauth_signature recomputes the signed string when the request's parameters avoid "
+              "the protocol names (witness proved for when they do not).  _oauth_escape and the two key constructions are re-read from the working tree by an ast "
+              "translator and proved to mean the model's functions; the rest of the signature functions is pinned by text.  Tied to auth.py by capturing the "
+              "(key, message) actually passed to hmac.new on generated inputs.")
+LEVEL_NOTE = ("Trusted: Coq kernel/vm_compute, harness (hmac capture, URL construction, time/uuid replacement), urlsplit. HMAC-SHA1/base64 themselves are outside the model "
               "(the harness re-derives the signature from the captured pair with the stdlib).")
-TECHNIQUE = "Coq proof (insertion sort = unique sorted permutation; rpartition lemmas) + differential correspondence on captured HMAC inputs"
+TECHNIQUE = ("Coq proof (insertion sort = unique sorted permutation; rpartition lemmas; byte sweep; dict update as permutation of the RFC parameter set) + fail-closed ast "
+             "translator with equivalence proof + differential correspondence on captured HMAC inputs")
